@@ -109,25 +109,45 @@ pub fn gen_msg_case(mt: &str, src: &mut Src) -> MutCase {
 }
 
 pub fn msg_oracle(c: &MutCase, obs: &mut Obs) -> Vec<Violation> {
+    full_oracle(&c.mt, c.enveloped(), &c.mutation, &format!("msg|MT{}", c.mt), obs)
+}
+
+/// generated envelopes (every header form, optional header tags) around a minimal body
+pub fn env_oracle(c: &crate::props::c10::EnvCase, obs: &mut Obs) -> Vec<Violation> {
+    let label = if c.near_miss.is_empty() {
+        format!(
+            "b2:{}{}{}{}",
+            &c.b2[0..1],
+            c.b2.len(),
+            if c.b3.is_some() { "+b3" } else { "" },
+            if c.b5.is_some() { "+b5" } else { "" }
+        )
+    } else {
+        format!("near-miss:{}", c.near_miss)
+    };
+    full_oracle(&c.mt, c.text(), &label, "env", obs)
+}
+
+fn full_oracle(mt: &str, x: String, mutation: &str, scope: &str, obs: &mut Obs) -> Vec<Violation> {
     let mut out = Vec::new();
-    let ops = msg_ops(&c.mt);
-    let x = c.enveloped();
-    if crate::refs::has_long_number(&x) {
+    let ops = msg_ops(mt);
+    let scope0 = scope.split('|').next().unwrap_or("msg").to_string();
+    if crate::refs::has_long_number(&crate::props::c10::block4_of(&x)) {
         obs.excluded("amount-beyond-f64-precision (C06 reports it)");
         return out;
     }
     let m1 = match (ops.parse_full)(&x) {
         Ok(m) => m,
         Err(_) => {
-            obs.class("msg:rejected-input");
+            obs.class(&format!("{scope0}:rejected-input"));
             return out;
         }
     };
-    obs.class(&format!("msg:accepted:{}", c.mutation));
+    obs.class(&format!("{scope0}:accepted:{mutation}"));
     obs.nontrivial_str(&x);
     obs.sample(
-        &format!("msg:{}", c.mutation),
-        || json!({"mt": c.mt, "mutation": c.mutation, "text": x}),
+        &format!("{scope0}:{mutation}"),
+        || json!({"mt": mt, "mutation": mutation, "text": x}),
     );
     let t1 = m1.mt_message.clone();
     let m2 = match (ops.parse_full)(&t1) {
@@ -136,8 +156,7 @@ pub fn msg_oracle(c: &MutCase, obs: &mut Obs) -> Vec<Violation> {
             if !e.is_panic() {
                 out.push(viol(
                     format!(
-                        "C02|msg|MT{}|reparse-rejected|{}",
-                        c.mt,
+                        "C02|{scope}|reparse-rejected|{}",
                         crate::props::c03::error_tag(&e)
                     ),
                     format!(
@@ -154,7 +173,7 @@ pub fn msg_oracle(c: &MutCase, obs: &mut Obs) -> Vec<Violation> {
     if m2.json != m1.json {
         let tag = diff_tag(&m1.json, &m2.json, "").unwrap_or_default();
         out.push(viol(
-            format!("C02|msg|MT{}|value-differs|{}", c.mt, tag),
+            format!("C02|{scope}|value-differs|{tag}"),
             format!(
                 "second parse differs at {tag}:\nfirst  {}\nsecond {}",
                 m1.json, m2.json
@@ -170,7 +189,7 @@ pub fn msg_oracle(c: &MutCase, obs: &mut Obs) -> Vec<Violation> {
             .find(|(p, q)| p != q)
             .map(|(p, _)| p.tag.clone())
             .unwrap_or("-".into());
-        out.push(viol(format!("C02|msg|MT{}|text-not-fixed|{}", c.mt, tag), format!("serialising the second parse does not reproduce the first serialisation at {tag}:\n{}\nvs\n{}", t1, m2.mt_message)));
+        out.push(viol(format!("C02|{scope}|text-not-fixed|{tag}"), format!("serialising the second parse does not reproduce the first serialisation at {tag}:\n{}\nvs\n{}", t1, m2.mt_message)));
     }
     out
 }
@@ -379,7 +398,7 @@ pub fn field_oracle_with(c: &FieldRt, obs: &mut Obs, judge_undetermined: bool) -
 }
 
 pub fn run(ctx: &Ctx) {
-    ctx.add_rule("message level: per type, valid / structurally mutated / numerically non-canonical texts inside an envelope, LF/CRLF; field level: per field type (114, enums with and without option letter), valid / near-miss / random contents; non-trivial = accepted by the library; distinct by (type, input); oracle: parse -> serialise -> parse gives an equal value (serde_json of the whole message incl. headers) and the same text byte for byte");
+    ctx.add_rule("message level: per type, valid / structurally mutated / numerically non-canonical texts inside a fixed envelope, LF/CRLF, and minimal bodies inside generated envelopes (every block-1/2 form incl. output headers whose two dates differ, block-3/5 tag subsets); field level: per field type (114, enums with and without option letter), valid / near-miss / random contents; non-trivial = accepted by the library; distinct by (type, input); oracle: parse -> serialise -> parse gives an equal value (serde_json of the whole message incl. headers) and the same text byte for byte");
     let to_json = |c: &MutCase| serde_json::to_value(c).unwrap();
     ctx.run_generated(
         "msg",
@@ -389,6 +408,16 @@ pub fn run(ctx: &Ctx) {
         &|sh, src: &mut Src| gen_msg_case(mt_of_shard(sh), src),
         &msg_oracle,
         &to_json,
+    );
+    let to_json_env = |c: &crate::props::c10::EnvCase| serde_json::to_value(c).unwrap();
+    ctx.run_generated(
+        "env",
+        MSGS.len(),
+        ctx.n(1500, 30000),
+        400,
+        &|sh, src: &mut Src| crate::props::c10::gen_env(mt_of_shard(sh), src),
+        &env_oracle,
+        &to_json_env,
     );
     let to_json2 = |c: &FieldRt| serde_json::to_value(c).unwrap();
     ctx.run_generated(
@@ -414,6 +443,10 @@ pub fn replay(_ctx: &Ctx, sub: &str, case: &Value) -> Vec<Violation> {
     if sub == "field" || sub == "field-grid" {
         let c: FieldRt = serde_json::from_value(case.clone()).expect("replay case");
         field_oracle_with(&c, &mut Obs::default(), true)
+    } else if sub == "env" {
+        let c: crate::props::c10::EnvCase =
+            serde_json::from_value(case.clone()).expect("replay case");
+        env_oracle(&c, &mut Obs::default())
     } else {
         let c: MutCase = serde_json::from_value(case.clone()).expect("replay case");
         msg_oracle(&c, &mut Obs::default())
